@@ -3200,6 +3200,12 @@ impl Block {
         );
         let mut new_slips_map = std::collections::HashMap::new();
         let transactions_valid = self.transactions.iter().all(|tx: &Transaction| -> bool {
+            // SPV transactions are placeholders of lite blocks: they carry no signature
+            // check and cannot be part of a full block
+            if tx.transaction_type == TransactionType::SPV {
+                error!("ERROR 579129: full block contains an SPV transaction");
+                return false;
+            }
             let valid_tx = tx.validate(utxoset, blockchain, validate_against_utxo);
             // validate double-spend inputs
             if valid_tx && tx.transaction_type != TransactionType::Fee {
